@@ -2,7 +2,7 @@
    Full statement:
      forall T v b, X690.read T b = Some (abs T v, []) ->
        exists v', decode BER (Some T) b = Ok (DV T v', []) /\ abs T v' = abs T v.
-   Proved (C09_all_forms, at the end of this file) for every type without CHOICE/ANY, with three
+   Proved (C09_all_forms, at the end of this file) for every type without CHOICE/ANY, with two
    side conditions each of which marks a real disagreement between library and X.690 reader. *)
 From PV Require Import Base.Bytes Model.Tag Model.Types Model.TableTypes Model.Dec Spec.X690 Gen.Tables
      Proofs.TagOctets Proofs.BerForms Proofs.BerAllForms.
@@ -41,25 +41,26 @@ Proof. vm_compute. reflexivity. Qed.
    abstract value and the same remainder.  frag: every simple type, the character string types the
    model covers, SEQUENCE OF, SET OF, SEQUENCE and SET with mandatory/OPTIONAL/DEFAULT components
    (distinct tags as X.680 requires), IMPLICIT/EXPLICIT tagging, to any depth; not yet CHOICE and ANY.
-   The three side conditions are the places where library and reader genuinely differ:
-   a definite-length constructed BIT STRING with no segments (23 00: finding F54, the library refused
-   it), a binary REAL without mantissa octets (the reader is lax), octets above 7F in an ASCII-repertoire
-   string type (the library checks the repertoire, X.690 does not) *)
+   The two side conditions are the places where library and reader genuinely differ: a binary REAL
+   without mantissa octets (the reader is lax), octets above 7F in an ASCII-repertoire string type (the
+   library checks the repertoire, X.690 does not).  A third one - a definite-length constructed
+   BIT STRING with no segments, 23 00 - was a defect of the library (finding F54), found by this
+   proof, repaired, and the condition removed. *)
 Theorem C09_all_forms : forall T b a tl,
   frag T = true -> wf_bytes b = true -> N.of_nat (length b) <= index_max ->
   X690.read T b = Some (a, tl) ->
   (forall n r, parse b = Some (n, r) ->
-     no_empty_constructed_bits T n = true /\ real_mantissas_present T n = true /\ ascii_strings_ascii T n = true) ->
+     real_mantissas_present T n = true /\ ascii_strings_ascii T n = true) ->
   exists v, decode BER (Some T) b = Ok (DV T v, tl) /\ abs T v = a.
 Proof. exact ber_all_forms. Qed.
 Print Assumptions C09_all_forms.
 
-(* no side condition at all for types without BIT STRING, REAL and ASCII-repertoire strings *)
+(* no side condition at all for types without REAL and ASCII-repertoire strings *)
 Theorem C09_all_forms_unconditional : forall T b a tl,
   frag T = true -> side_keys T None = [] -> wf_bytes b = true -> N.of_nat (length b) <= index_max ->
   X690.read T b = Some (a, tl) ->
   exists v, decode BER (Some T) b = Ok (DV T v, tl) /\ abs T v = a.
-Proof. exact ber_all_forms_no_bits. Qed.
+Proof. exact ber_all_forms_unconditional. Qed.
 Print Assumptions C09_all_forms_unconditional.
 
 Example C09_all_forms_nonvacuous :
@@ -68,8 +69,14 @@ Example C09_all_forms_nonvacuous :
      = Some (ARec [Some (AInt 5); None; Some (ABool true); Some (ABits ex_bits); Some (AList [AOcts [200]]);
                    Some (ARec [Some (ABool true); Some (AOid [1; 2; 3]); Some (AInt 7); Some (AReal (ABin 5 (-1)))])], [9; 9])
   /\ (forall n r, parse ex_b = Some (n, r) ->
-        no_empty_constructed_bits ex_T n = true /\ real_mantissas_present ex_T n = true /\ ascii_strings_ascii ex_T n = true)
+        real_mantissas_present ex_T n = true /\ ascii_strings_ascii ex_T n = true)
   /\ decode BER (Some ex_T) ex_b
      = Ok (DV ex_T (VRec [Some (VInt 5); None; None; Some (VBits ex_bits); Some (VList [VOcts [200]]);
                           Some (VRec [Some (VBool true); Some (VOid [1; 2; 3]); None; Some (VReal (RBin 5 (-1)))])]), [9; 9]).
 Proof. exact ber_all_forms_nonvacuous. Qed.
+
+(* the empty bit string in constructed form, no segments at all or empty nested ones (was finding F54) *)
+Example C09_empty_constructed_bit_string :
+  decode BER (Some TBits) [35; 0] = Ok (DV TBits (VBits []), [])
+  /\ decode BER (Some TBits) [35; 128; 0; 0] = Ok (DV TBits (VBits []), []).
+Proof. vm_compute. split; reflexivity. Qed.
